@@ -10,6 +10,7 @@ import (
 	"github.com/Oneledger/protocol/action"
 	"github.com/Oneledger/protocol/data/evidence"
 	"github.com/Oneledger/protocol/data/keys"
+	"github.com/Oneledger/protocol/identity"
 )
 
 var _ action.Msg = &Withdraw{}
@@ -141,9 +142,8 @@ func runWithdraw(ctx *action.Context, tx action.RawTx) (bool, action.Response) {
 	// the withdrawable amount is kept per stake address, whatever validator the message names:
 	// the stake account of a frozen validator cannot withdraw by naming another address
 	frozenOwner := false
-	ctx.EvidenceStore.IterateSuspiciousValidators(func(lvh *evidence.LastValidatorHistory) bool {
-		validator, err := ctx.Validators.Get(lvh.Address)
-		if err == nil && validator.StakeAddress.Equal(draw.StakeAddress) {
+	ctx.Validators.Iterate(func(addr keys.Address, validator *identity.Validator) bool {
+		if validator.StakeAddress.Equal(draw.StakeAddress) && ctx.EvidenceStore.IsFrozenValidator(validator.Address) {
 			frozenOwner = true
 		}
 		return frozenOwner
